@@ -266,8 +266,9 @@ Definition bs_step (chk : bool) (ct : content) (slot : N) (sd : slotdata) (op : 
                       | AOk (Some (BBlock h _)) => negb (listN_eqb h expected)
                       | _ => false end in
       if mismatch then
-        let sd1 := mkSD (sd_dissem sd) (filter (fun kv => negb (fst kv =? key)) (sd_repaired sd)) (sd_misbehaved sd) (sd_panicked sd) in
-        let '(sd2, evs) := flag_misbehaviour sd1 in (sd2, BRErr EInvalidShred, evs)
+        (* dropped without an error: nobody is blamed ("fix: do not blame the leader for a repaired block that
+           misses the requested hash") *)
+        (mkSD (sd_dissem sd) (filter (fun kv => negb (fst kv =? key)) (sd_repaired sd)) (sd_misbehaved sd) (sd_panicked sd), BROk None, [])
       else
       let sd1 := mkSD (sd_dissem sd) (ainsert key d (sd_repaired sd)) (sd_misbehaved sd) (sd_panicked sd) in
       match r with
